@@ -235,6 +235,7 @@ InitEp(role, cfg, maxClosed) ==
    sat |-> FALSE,               \* a number of the implementation left the 32-bit range this model computes in
    dl |-> FALSE,                \* the HPACK decoder gave up in the middle of a block (its table is no longer predictable)
    inited |-> FALSE,            \* initiate_connection has been called (the connection state machine does not know)
+   gl |-> <<>>,                 \* (ghost for C18) the last-stream-id the application announced itself with close_connection
    eg |-> <<>>,                 \* (ghost for C07) per stream id, how far the events reported for it have got: see EgNext
    upgRet |-> <<>>,             \* the HTTP2-Settings payload initiate_upgrade_connection returned (client)
    dev |-> {}]
@@ -450,7 +451,9 @@ ResetStream(ep, c) ==
 
 CloseConnection(ep, c) ==
   LET c1 == ConnStep(ep, "SEND_GOAWAY") IN
-  CR(Emit(c1.ep, <<FGoAway(IF c.last = <<>> THEN ep.hiIn ELSE c.last[1], c.code, IF c.tag = <<>> THEN "-" ELSE c.tag[1])>>), OK)
+  \* (the connection keeps no memory of what it announced: a later error GOAWAY carries the highest peer stream id again.  The
+  \* ghost gl records the announcement, so that the state reached with an explicit last-stream-id is explored in its own right)
+  CR(Emit([c1.ep EXCEPT !.gl = IF c.last = <<>> THEN @ ELSE c.last], <<FGoAway(IF c.last = <<>> THEN ep.hiIn ELSE c.last[1], c.code, IF c.tag = <<>> THEN "-" ELSE c.tag[1])>>), OK)
 
 UpdateSettings(ep, c) ==
   LET c1 == ConnStep(ep, "SEND_SETTINGS") IN
@@ -1076,12 +1079,13 @@ PendCount(fs, open) ==
           ELSE 1 + PendCount(Tail(fs), raw /\ f.typ \in {1, 5} /\ ~Bit(f, 4))
 \* (the four progress flags of the code are None until they are set to True: "N" / "T"; any other value is a difference)
 Flag3(b) == IF b THEN "T" ELSE "N"
-ZStream(sid, s) == [sid |-> sid, st |-> s.st, cl |-> s.cl, hs |-> Flag3(s.hs), ts |-> Flag3(s.ts), hr |-> Flag3(s.hr), tr |-> Flag3(s.tr), by |-> s.by,
+\* (mof: every stream object carries a copy of the connection's outbound frame-size limit, used when its header blocks are cut)
+ZStream(sid, s, mof) == [sid |-> sid, mof |-> mof, st |-> s.st, cl |-> s.cl, hs |-> Flag3(s.hs), ts |-> Flag3(s.ts), hr |-> Flag3(s.hr), tr |-> Flag3(s.tr), by |-> s.by,
                     ow |-> s.ow, iw |-> <<s.iw.cur, s.iw.max, s.iw.bp>>,
                     ecl |-> IF s.eclSet THEN <<s.ecl>> ELSE <<>>, acl |-> s.acl, meth |-> s.meth, auth |-> s.auth]
 ZSettings(S) == [i \in 1..Len(S.ord) |-> <<S.ord[i], IF S.ord[i] \in S.hn THEN Tail(S.q[S.ord[i]]) ELSE S.q[S.ord[i]], S.ord[i] \in S.hn>>]
 Z(ep) == [conn |-> ep.conn, hiIn |-> ep.hiIn, hiOut |-> ep.hiOut, ow |-> ep.ow, iw |-> <<ep.iw.cur, ep.iw.max, ep.iw.bp>>,
-          streams |-> [i \in 1..Len(ep.sord) |-> ZStream(ep.sord[i], ep.streams[ep.sord[i]])],
+          streams |-> [i \in 1..Len(ep.sord) |-> ZStream(ep.sord[i], ep.streams[ep.sord[i]], ep.mof)],
           closed |-> [i \in 1..Len(ep.closed) |-> <<ep.closed[i].sid, ep.closed[i].by>>],
           ls |-> ZSettings(ep.ls), rs |-> ZSettings(ep.rs), hdrCap |-> ep.hdrCap,
           hb |-> IF ep.hb = <<>> THEN 0 ELSE ep.hb[1].n,
